@@ -102,6 +102,27 @@ func funcsUncached(pkg *packages.Package) []*Fn {
 	var out []*Fn
 	for _, f := range pkg.Syntax {
 		for _, d := range f.Decls {
+			if gd, isGen := d.(*ast.GenDecl); isGen && gd.Tok == token.VAR {
+				// function literals in package-level variable initialisers (e.g. middleware values)
+				for _, sp := range gd.Specs {
+					vs, ok := sp.(*ast.ValueSpec)
+					if !ok || len(vs.Names) == 0 {
+						continue
+					}
+					k := 0
+					for _, v := range vs.Values {
+						ast.Inspect(v, func(n ast.Node) bool {
+							if lit, ok := n.(*ast.FuncLit); ok {
+								k++
+								out = append(out, &Fn{Pkg: pkg, Lit: lit, Name: fmt.Sprintf("var %s$%d", vs.Names[0].Name, k)})
+								return false
+							}
+							return true
+						})
+					}
+				}
+				continue
+			}
 			fd, ok := d.(*ast.FuncDecl)
 			if !ok || fd.Body == nil {
 				continue
